@@ -432,6 +432,48 @@ Proof. apply allc_repeat. reflexivity. Qed.
 Lemma pad_nil a w : pad a w [] = spaces w.
 Proof. destruct a; simpl; unfold ljust, rjust; simpl; rewrite ?app_nil_r, Nat.sub_0_r; reflexivity. Qed.
 
+
+Lemma list_nat_eqb_refl a : list_nat_eqb a a = true.
+Proof. induction a; simpl; auto. rewrite Nat.eqb_refl. exact IHa. Qed.
+
+Lemma filter_len_same A a : anc_ok A a -> filter (fun x : list nat => (length x =? 1)%nat) a = a.
+Proof. induction 1 as [|x t Hx H IH]; [reflexivity|]. subst x. cbn [filter length Nat.eqb]. rewrite IH. reflexivity. Qed.
+Lemma filter_len_other A a k : k <> 1%nat -> anc_ok A a -> filter (fun x : list nat => (length x =? k)%nat) a = [].
+Proof.
+  intros Hk. induction 1 as [|x t Hx H IH]; [reflexivity|]. subst x. cbn [filter length].
+  destruct (1 =? k)%nat eqn:E; [apply Nat.eqb_eq in E; congruence|]. exact IH.
+Qed.
+
+Lemma anchors_agree_ok A a : anc_ok A a -> anchors_agree a = true.
+Proof.
+  intros H. unfold anchors_agree. cbn [forallb].
+  rewrite (filter_len_same A a H), (filter_len_other A a 2%nat), (filter_len_other A a 3%nat) by (auto; lia).
+  rewrite !andb_true_r.
+  destruct H as [|x t Hx H]; [reflexivity|]. subst x.
+  apply forallb_forall. intros y Hy. rewrite Forall_forall in H. rewrite (H y Hy). apply list_nat_eqb_refl.
+Qed.
+
+Lemma forallb2_map2_r {A B} (P : A -> nat -> bool) (f : A -> B -> nat) (la : list A) : forall lb,
+  length lb = length la -> (forall a b, P a (f a b) = true) -> forallb2 P la (map2 f la lb) = true.
+Proof.
+  induction la as [|a la IH]; intros [|b lb] Hl HP; simpl in *; try discriminate; auto.
+  rewrite HP. apply IH; [lia|exact HP].
+Qed.
+
+Lemma header_slots_check (desc : list (str * dtype)) : forall ws, length ws = length desc ->
+  forallb2 (fun (dw : (str * dtype) * nat) s => header_ok (snd dw) (fst (fst dw)) s) (combine desc ws)
+           (header_slots (map fst desc) ws) = true.
+Proof.
+  induction desc as [|d desc IH]; intros [|w ws] Hl; simpl in *; try discriminate; auto.
+  rewrite header_ok_center. apply IH. lia.
+Qed.
+
+Lemma last_app_single {A} (l : list A) x d : last (l ++ [x]) d = x.
+Proof. apply last_last. Qed.
+
+Lemma Forall2_in_r {A B} (R : A -> B -> Prop) la lb b : Forall2 R la lb -> In b lb -> exists a, R a b.
+Proof. induction 1; intros []; subst; eauto. Qed.
+
 Definition all_positional (rows : list (list cellv)) : Prop :=
   forall row, In row rows -> forall d, In (CDec d) row -> dec_positional d = true.
 
@@ -568,10 +610,69 @@ Proof.
     destruct IH as [a3 [E3 A3]]; [intros; apply Hsub; right; assumption|].
     destruct spacer_line_ok as [S1 S2].
     cbn [rows_check flat_map]. rewrite (row_lines_exact o desc r HD).
-    unfold model_row_lines at 1. unfold spacer. destruct (o_spaced o) eqn:Esp.
+    assert (EL : model_row_lines r = row_line o aligns ws (row_cells numfmt o sts r) :: map (row_line o aligns ws) (spacer o sts)) by reflexivity.
+    rewrite EL. clear EL. unfold spacer. destruct (o_spaced o) eqn:Esp.
     + cbn [map app firstn skipn]. rewrite E1, S1, S2, E3. cbn [guard first_code Z.eqb].
       eexists. split; [reflexivity|]. apply anc_ok_map2_app; assumption.
     + cbn [map app firstn skipn]. rewrite E1, E3. cbn [first_code Z.eqb].
       eexists. split; [reflexivity|]. apply anc_ok_map2_app; assumption.
+Qed.
+
+Hypothesis Hnf : nl_free o desc rows.
+
+Lemma body_lines_gen rs : map (row_line o aligns ws) (flat_map (render_row numfmt o sts) rs) = flat_map model_row_lines rs.
+Proof.
+  pose proof (col_states_exact quant o desc rows He) as HS. fold sts in HS.
+  induction rs as [|r rs IH]; [reflexivity|]. cbn [flat_map]. rewrite map_app, IH.
+  rewrite (render_row_exact numfmt o sts r HS). reflexivity.
+Qed.
+Lemma body_lines : map (row_line o aligns ws) (render_rows numfmt o sts rows) = flat_map model_row_lines rows.
+Proof. apply body_lines_gen. Qed.
+
+Lemma ws_ge1 : Forall (fun w => (1 <= w)%nat) ws.
+Proof. unfold ws, table_widths. apply Forall_map2. intros. unfold col_width. lia. Qed.
+
+Theorem check_table_model :
+  check_table_code o prec desc rows (unlines (text_lines quant numfmt o desc rows)) = 0.
+Proof.
+  unfold check_table_code.
+  assert (Har : forallb (fun r : list cellv => (length r =? length desc)%nat) rows = true).
+  { apply forallb_forall. intros r Hr. destruct (Hwf r Hr) as [Hl _]. apply Nat.eqb_eq. exact Hl. }
+  rewrite Har. cbn [negb].
+  set (L := text_lines quant numfmt o desc rows).
+  rewrite <- (text_lines_length quant numfmt o desc rows He). fold L.
+  assert (HLn : (1 <= length L)%nat).
+  { unfold L, text_lines. rewrite !app_length. simpl. lia. }
+  rewrite (split_rect_unlines (linew o ws) L HLn (text_lines_rect quant numfmt o desc rows Hn Hfits)
+             (text_lines_nonl quant numfmt o desc rows Hwf He Hnf)).
+  assert (Hne : ws <> []) by (intros E; pose proof len_ws as H; rewrite E in H; simpl in H; lia).
+  pose proof (widths_of_h_line o ws Hne ws_ge1 (ltac:(destruct (o_unicode o); auto))) as HW.
+  pose proof body_lines as HB.
+  destruct (rows_check_model rows (fun r H => H)) as [anc [ER HA]].
+  assert (Hfin : first_code (map2 (fun (d : str * dtype) a => guard (anchors_agree a)
+                       (match snd d with TDecimal => 10 | _ => 12 end)) desc anc) = 0).
+  { apply first_code_zero. intros x Hx.
+    assert (HF : Forall (fun x => x = 0) (map2 (fun (d : str * dtype) a => guard (anchors_agree a)
+                       (match snd d with TDecimal => 10 | _ => 12 end)) desc anc)).
+    { apply Forall_map2. intros d a _ Ha. destruct (Forall2_in_r _ _ _ a HA Ha) as [A HAa].
+      rewrite (anchors_agree_ok A a HAa). reflexivity. }
+    rewrite Forall_forall in HF. apply HF. exact Hx. }
+  assert (Hwok : forallb2 (fun (d : str * dtype) w => width_ok o (fst d) w) desc ws = true).
+  { unfold ws, table_widths. apply forallb2_map2_r; [apply col_states_length|]. intros. apply width_ok_col_width. }
+  pose proof (header_slots_ok quant numfmt o desc rows) as HH. cbv zeta in HH.
+  pose proof (header_slots_check desc ws len_ws) as HHC.
+  unfold L, text_lines. destruct (o_boxed o) eqn:B.
+  - cbn [app nth Nat.add]. rewrite HW, len_ws, Nat.eqb_refl, str_eqb_refl, str_eqb_refl.
+    rewrite app_comm_cons. rewrite !app_comm_cons. rewrite last_app_single, str_eqb_refl. cbn [andb orb negb].
+    rewrite Hwok. cbn [negb]. rewrite HH, HHC. cbn [negb].
+    rewrite <- !app_comm_cons. cbn [skipn length]. rewrite app_length. cbn [length].
+    replace (S (S (S (length (map (row_line o aligns ws) (render_rows numfmt o sts rows)) + 1))) - 3 - 1)%nat
+      with (length (map (row_line o aligns ws) (render_rows numfmt o sts rows))) by lia.
+    rewrite firstn_app, Nat.sub_diag, firstn_all, firstn_O, app_nil_r, HB, ER. cbn [Z.eqb negb]. exact Hfin.
+  - cbn [app nth Nat.add]. rewrite app_nil_r. rewrite HW, len_ws, Nat.eqb_refl, str_eqb_refl. cbn [andb orb negb].
+    rewrite Hwok. cbn [negb]. rewrite HH, HHC. cbn [negb skipn length].
+    replace (S (S (length (map (row_line o aligns ws) (render_rows numfmt o sts rows)))) - 2 - 0)%nat
+      with (length (map (row_line o aligns ws) (render_rows numfmt o sts rows))) by lia.
+    rewrite firstn_all, HB, ER. cbn [Z.eqb negb]. exact Hfin.
 Qed.
 End Sound.
